@@ -15,17 +15,34 @@ def generate(ctx):
     rng = ctx.rng
     for _ in range(ctx.n(250, 12000)):
         cls = rng.choice(["generic-tree", "generic-tree", "generic-cyclic", "collinear-chain",
-                          "partly-collinear", "lattice", "two-atom", "one-atom"])
+                          "partly-collinear", "nearly-collinear", "lattice", "two-atom", "one-atom"])
         pos, bonds, cls = E.gen_ref(rng, cls)
         sigma = rng.choice([1e-3, 0.05, 0.5])
         newpos = [[c + rng.gauss(0, sigma) for c in p] for p in pos]
         case = {"ref": {"pos": pos, "bonds": [list(b) for b in bonds]}, "tgt": E.gen_tgt(rng, pos, cls),
                 "s": E.gen_scale(rng), "mode": "deform", "cls": cls, "seed": rng.randrange(2 ** 31),
-                "newpos": newpos, "sigma": sigma}
+                "newpos": newpos, "sigma": sigma,
+                "ident": rng.choice(["fresh", "fresh", "construction-object", "reused-object"])}
         if len(pos) >= 4 and rng.random() < 0.5:
             case["mode"] = "local"
             case["moved"] = rng.randrange(len(pos))
             case["delta"] = [rng.gauss(0, 0.3) for _ in range(3)]
+            nb = E.neighbours(len(pos), bonds)
+            branching = [a for a in range(len(pos)) if len(nb[a]) >= 3]
+            if branching and rng.random() < 0.5:
+                # NEW conformation with a branching anchor exactly collinear with its two lowest-numbered
+                # neighbours; displace one of its OTHER neighbours (outside the dependency set)
+                a = rng.choice(branching)
+                n1, n2 = sorted(nb[a])[:2]
+                base = [float(rng.randint(-2, 2)) for _ in range(3)]
+                d = [float(rng.randint(-2, 2)) for _ in range(3)]
+                if not any(d):
+                    d = [0.0, 1.0, 0.0]
+                newpos[a] = base
+                newpos[n1] = [base[k] + rng.choice([-2, -1, 1, 2]) * 0.25 * d[k] for k in range(3)]
+                newpos[n2] = [base[k] + rng.choice([-3, 3]) * 0.25 * d[k] for k in range(3)]
+                case["moved"] = rng.choice(sorted(nb[a])[2:])
+                case["cls"] = cls + "+collinear-branching-anchor"
         yield case
 
 
@@ -40,6 +57,7 @@ def evaluate(ctx, case):
              sample={k: case.get(k) for k in ("cls", "s", "mode", "sigma", "moved")} | {"n_ref": n, "n_tgt": len(tgt)})
     ctx.count("cls:" + case["cls"])
     ctx.count("mode:" + case["mode"])
+    ctx.count("ident:" + case.get("ident", "fresh"))
     out, argpos = impl["out"], impl["argpos"]
     fails = []
     if not np.isfinite(out).all():
